@@ -66,17 +66,35 @@ Inductive keyop :=
 | OpProtect (s2k enc : bytes)     (* PrivKeyV4.protect: new S2K parameters and ciphertext, integers cleared *)
 | OpUnlock (privs : list Z)       (* PrivKeyV4.unprotect: the secret integers reappear *)
 | OpLock                          (* leaving `with key.unlock(...)`: keymaterial.clear() *)
-| OpPubkey                        (* PrivKeyV4.pubkey() *)
-| OpCopy                          (* PubKeyV4.__copy__: same field values *)
+| OpPubkey                        (* PrivKeyV4.pubkey() / PGPKey.pubkey *)
+| OpCopy                          (* PubKeyV4.__copy__: same field values (opaque octets included, repair 3c1c8c6) *)
 | OpReparse.                      (* bytes(packet) read back by Packet(...) *)
 
-Definition apply_op (k : keypkt) (o : keyop) : keypkt :=
+(* None = the step raises (only pubkey() of a private key with opaque material: NotImplementedError) *)
+Definition apply_op (k : keypkt) (o : keyop) : option keypkt :=
+  match o with
+  | OpProtect s e => Some (map_sec (protect_sec s e) k)
+  | OpUnlock p => Some (map_sec (unlock_sec p) k)
+  | OpLock => Some (map_sec clear_sec k)
+  | OpPubkey => pubkey_pkt k
+  | OpCopy => Some k
+  | OpReparse => Some (reparse k)
+  end.
+(* a history: the first refusal ends it *)
+Fixpoint run_ops (ops : list keyop) (k : keypkt) : option keypkt :=
+  match ops with
+  | [] => Some k
+  | o :: r => match apply_op k o with Some k' => run_ops r k' | None => None end
+  end.
+
+(* the code before repair 3c1c8c6: pubkey() never refused and emptied opaque material, copy lost the opaque octets *)
+Definition apply_op_old (k : keypkt) (o : keyop) : keypkt :=
   match o with
   | OpProtect s e => map_sec (protect_sec s e) k
   | OpUnlock p => map_sec (unlock_sec p) k
   | OpLock => map_sec clear_sec k
-  | OpPubkey => pubkey_pkt k
-  | OpCopy => k
+  | OpPubkey => pubkey_pkt_old k
+  | OpCopy => copy_pkt_old k
   | OpReparse => reparse k
   end.
 
